@@ -509,6 +509,12 @@ func ruleKeyArms(r *Report) {
 			}
 		}
 		h.Check(same, b.Name+"/Put/key=value", effPos(r.P, ins), "the table key is the value stored in the row", "the key inserted into the lookup table is not the value stored in the row")
+		// the table is maintained in the same pass that stores the key and sets the presence bit: the
+		// re-key test of an operation reads the row as the earlier operations of the batch left it
+		// (a separate table pass over the whole batch sees the state before the batch, and a row
+		// keyed twice in one transaction keeps its intermediate key in the table)
+		samePass := len(sts) > 0 && b.Loop.Must(opPut, "value-store") && b.Loop.Must(opPut, "presence-set") && len(b.Loop.May(opDelete, "presence-clear")) > 0
+		h.Check(samePass, b.Name+"/same-pass", r.P.Pos(b.Fn.Pos()), "table maintenance, presence bit and stored key change in one pass over the operations", "the lookup table is maintained in a different pass over the operations than the one that stores the keys and presence bits: the re-key test of a later operation on the same row reads the state from before the batch, and the intermediate key of a row keyed twice in one transaction stays in the table")
 		// re-key: on Put, some path deletes the previous key of the row (loaded from the row's element)
 		dels := b.Loop.May(opPut, "table-delete")
 		rekey := false
@@ -580,7 +586,7 @@ func ruleKeyArms(r *Report) {
 		for _, d := range ddel {
 			ok := false
 			if ld, isLd := unwrapCopy(d.Val).(*ssa.UnOp); isLd && ld.Op == token.MUL {
-				if ia, isIA := ld.X.(*ssa.IndexAddr); isIA && clr[0].Offset != nil && sameExpr(ia.Index, clr[0].Offset) {
+				if ia, isIA := ld.X.(*ssa.IndexAddr); isIA && len(clr) > 0 && clr[0].Offset != nil && sameExpr(ia.Index, clr[0].Offset) {
 					ok = true
 				}
 			}
